@@ -116,7 +116,7 @@ fn rand_number(rng: &mut Rng) -> Number {
 const SYMBOL_TEXTS: &[&str] = &[
     "a", "foo", "foo-bar", "list->vector", "+", "-", "...", "<=?", "a1", "!x", "$", "%tmp", "&k", "*", "/", "x/y", ":key", "<", "=", ">",
     "?", "^", "_", "~", "a.b", "a+b", "a@b", "lambda", "quote", "x->y!", "CamelCase", "λ", "日本語", "é", "a\\x41;b", "->", "-a", "+a",
-    "..a", ".a", "a;b",
+    "..a", ".a", "a\\x2c;b", "x\\x3b;y", "\\x5b;", "p\\x7c;q", "\\x5c;", "a\\xa;b", "n\\x3bb;", "\\x1F600;", "z\\xe9;",
 ];
 
 /// symbols are taken from the reader: the property speaks of symbols the reader can produce
@@ -126,6 +126,30 @@ fn rand_symbol(rng: &mut Rng) -> Option<Cell> {
         Ok(Ok((c @ Cell::Symbol(_), None))) => Some(c),
         _ => None,
     }
+}
+
+/// names turned into symbols by string->symbol in a real VM (symbols whose written form needs escapes)
+const SYMBOL_NAMES: &[&str] = &[
+    "a,b", "x;y", "[", "p|q", "\\", "a\nb", "n;b", "two words", "(", ")", "a(b)c", "\"", "'", "`", "1abc", "42", "-", "+5", ".",
+    "#foo", "a\tb", "tab\t", "é", "😀", "\u{7f}", "A", "a", "{x}", "x]",
+];
+
+pub fn symbol_pool(s: &mut Session, cfg: &RunCfg) -> Vec<Cell> {
+    let mut pool = vec![];
+    for n in SYMBOL_NAMES {
+        let cps: Vec<String> = n.chars().map(|c| (c as u32).to_string()).collect();
+        let text = format!("(string->symbol (list->string (map integer->char '({}))))", cps.join(" "));
+        if let Ok(c) = crate::enc::parse_all(&text) {
+            if let Outcome::Ok(sym @ Cell::Symbol(_)) = s.eval(&c[0], cfg).0 {
+                pool.push(sym);
+            }
+        }
+    }
+    pool
+}
+
+thread_local! {
+    static POOL: std::cell::RefCell<Vec<Cell>> = std::cell::RefCell::new(vec![]);
 }
 
 pub fn rand_datum(rng: &mut Rng, depth: usize) -> Cell {
@@ -138,7 +162,17 @@ pub fn rand_datum(rng: &mut Rng, depth: usize) -> Cell {
             let n = rng.below(6);
             Cell::String((0..n).map(|_| rand_char(rng)).collect())
         }
-        5 => rand_symbol(rng).unwrap_or(Cell::Nil),
+        5 => {
+            let from_pool = POOL.with(|p| {
+                let p = p.borrow();
+                if !p.is_empty() && rng.chance(1, 2) {
+                    Some(p[rng.below(p.len())].clone())
+                } else {
+                    None
+                }
+            });
+            from_pool.or_else(|| rand_symbol(rng)).unwrap_or(Cell::Nil)
+        }
         6 => Cell::Nil,
         7 | 8 => {
             let n = 1 + rng.below(4);
@@ -170,6 +204,8 @@ pub fn main(args: &[String]) -> Result<(), String> {
     let cfg = RunCfg::plain();
     let mut s = Session::new(&cfg);
     s.install_sched(&cfg.sched);
+    let pool = symbol_pool(&mut s, &cfg);
+    POOL.with(|p| *p.borrow_mut() = pool);
     let mut recs: Vec<(String, Value)> = vec![];
     for i in 0..count {
         let mut rng = Rng::new(seed.wrapping_mul(7_000_003).wrapping_add(i as u64));
